@@ -340,7 +340,79 @@ theorem C10_skip_position_sound (shifts : List Nat) (covs : List Coverage) (hwf 
     have h1 := C10_lookup_digest_sound shifts covs hwf c hc g hcov
     rw [h1] at hskip; cases hskip
 
+/-! ## tables that are not sorted: whatever the binary search of `Coverage::get` can find is in the digest
+
+`Coverage.covers` is membership, not the search; the theorems above therefore never assumed a sorted table.  The search
+itself (`Coverage.find`, ttf-parser's `binary_search_by` as written) is tied to membership here, for EVERY list — sorted,
+unsorted, with duplicates, with overlapping or inverted ranges: a glyph the search finds is an entry of the table. -/
+
+theorem bsearchBy_spec {α : Type} (gt eq : α → Bool) (xs : List α) (i : Nat) (v : α)
+    (h : bsearchBy gt eq xs = some (i, v)) : xs[i]? = some v ∧ eq v = true := by
+  unfold bsearchBy at h
+  split at h
+  · cases h
+  · split at h
+    · cases h
+    · rename_i base _
+      split at h
+      · cases h
+      · rename_i w hw
+        split at h
+        · rename_i he
+          injection h with h
+          injection h with h1 h2
+          subst h1; subst h2
+          exact ⟨hw, he⟩
+        · cases h
+
+/-- A glyph that the binary search of `Coverage::get` finds is an entry of the table (no order assumed). -/
+theorem C10_find_covers (c : Coverage) (g i : Nat) (h : c.find g = some i) : c.covers g = true := by
+  cases c with
+  | glyphs gs =>
+    simp only [Coverage.find, Option.map_eq_some_iff] at h
+    obtain ⟨⟨j, v⟩, hb, _⟩ := h
+    obtain ⟨hv, he⟩ := bsearchBy_spec _ _ gs j v hb
+    have hmem : v ∈ gs := List.mem_of_getElem? hv
+    have : v = g := by simpa using he
+    subst this
+    simp [Coverage.covers, hmem]
+  | ranges rs =>
+    simp only [Coverage.find, Option.map_eq_some_iff] at h
+    obtain ⟨⟨j, v⟩, hb, _⟩ := h
+    obtain ⟨hv, he⟩ := bsearchBy_spec _ _ rs j v hb
+    have hmem : v ∈ rs := List.mem_of_getElem? hv
+    simp only [Coverage.covers, List.any_eq_true]
+    exact ⟨v, hmem, he⟩
+
+/-- Collecting a coverage table — in whatever order it is written — reports every glyph `Coverage::get` can find. -/
+theorem C10_collect_sound_found (shifts : List Nat) (d : Digest) (c : Coverage) (hwf : c.WF) (g i : Nat)
+    (h : c.find g = some i) : Digest.mayHaveGlyph shifts (collect shifts d c) g = true :=
+  C10_collect_sound shifts d c hwf g (C10_find_covers c g i h)
+
+/-- The lookup digest reports every glyph that the coverage search of any subtable can find. -/
+theorem C10_lookup_digest_sound_found (shifts : List Nat) (covs : List Coverage)
+    (hwf : ∀ c ∈ covs, c.WF) (c : Coverage) (hc : c ∈ covs) (g i : Nat) (h : c.find g = some i) :
+    Digest.mayHaveGlyph shifts (lookupDigest shifts covs) g = true :=
+  C10_lookup_digest_sound shifts covs hwf c hc g (C10_find_covers c g i h)
+
+/-- Skipping a position is sound on malformed tables too: if the lookup digest does not report the glyph, the coverage
+    search of no subtable finds it. -/
+theorem C10_skip_position_sound_found (shifts : List Nat) (covs : List Coverage) (hwf : ∀ c ∈ covs, c.WF)
+    (g : Nat) (hskip : Digest.mayHaveGlyph shifts (lookupDigest shifts covs) g = false) :
+    ∀ c ∈ covs, c.find g = none := by
+  intro c hc
+  cases hf : c.find g with
+  | none => rfl
+  | some i =>
+    have := C10_lookup_digest_sound_found shifts covs hwf c hc g i hf
+    rw [this] at hskip; cases hskip
+
 /-! ## non-vacuity -/
+-- an array that is not sorted: the search still finds 13 (at index 3) and 3 (at index 2), not 10 and 11
+example : (Coverage.glyphs [10, 11, 3, 13]).find 13 = some 3 ∧ (Coverage.glyphs [10, 11, 3, 13]).find 3 = some 2
+    ∧ (Coverage.glyphs [10, 11, 3, 13]).find 10 = none := by decide
+example : (Coverage.ranges [(20, 30), (5, 8), (25, 40)]).find 33 = some 2 ∧ (Coverage.ranges [(9, 2)]).find 5 = none := by decide
+example : Digest.mayHaveGlyph [4, 0, 9] (lookupDigest [4, 0, 9] [.glyphs [10, 11, 3, 13]]) 13 = true := by decide
 example : mayHaveGlyph 4 (addRange 4 0 1000 1900).1 1500 = true := by decide
 example : (addRange 0 0 60 70).2 = true ∧ (addRange 0 0 0 63).2 = false := by decide
 example : Digest.mayHave (lookupDigest [4, 0, 9] [.ranges [(10, 20)]]) (bufferDigest [4, 0, 9] [300])
